@@ -314,7 +314,7 @@ struct Runner {
     V* ob[2];
     int r[2] = {1, 2}; // referents of optional<T&>
     std::string inst;
-    long nev = 0, nskip = 0;
+    long nev = 0, nskip = 0, ndiverged = 0;
     std::set<std::string> unsupported_seen;
     bool broken    = false;
     bool life_used = false;
@@ -501,7 +501,10 @@ struct Runner {
         } else {
             o["has"]  = (bool)cv.has_value();
             o["bool"] = static_cast<bool>(cv);
-            if (cv.has_value()) { o["arrow"] = vo(*cv.operator->()); }
+            if (cv.has_value()) {
+                auto const* p = cv.operator->(); // a null pointer is reported, not dereferenced
+                o["arrow"]    = p ? vo(*p) : NULLV;
+            }
         }
         return o;
     }
@@ -658,10 +661,13 @@ struct Runner {
                     a0 = vo(t);
                     return vo(t) == 1 ? lib::optional<int>{} : lib::optional<int>{vo(t) + 10};
                 };
-                if constexpr (requires { v.and_then(F); }) {
+                if constexpr (requires { v.and_then(F); std::as_const(v).and_then(F); }) {
                     Guard g(*this);
                     auto rr = v.and_then(F);
                     ret     = json::array({rr.has_value() ? 1 : 0, rr.has_value() ? *rr : 0, calls, a0});
+                    calls = a0 = 0;
+                    auto rc = std::as_const(v).and_then(F); // const& overload
+                    for (int e : {rc.has_value() ? 1 : 0, rc.has_value() ? *rc : 0, calls, a0}) { ret.push_back(e); }
                 } else { ok = false; }
             } else if (op == "or_else") {
                 int calls = 0;
@@ -691,7 +697,8 @@ struct Runner {
                 ret.push_back(vo(*v));
             } else if (op == "arrow") {
                 Guard g(*this);
-                ret.push_back(vo(*v.operator->()));
+                auto* p = v.operator->();
+                ret.push_back(p ? vo(*p) : NULLV);
             } else if (op == "value") {
                 if constexpr (requires { v.value(); }) {
                     Guard g(*this);
@@ -757,7 +764,8 @@ struct Runner {
             } else if (op == "deref") {
                 ret.push_back(*std::as_const(v));
             } else if (op == "arrow") {
-                ret.push_back(*std::as_const(v).operator->());
+                auto* p = std::as_const(v).operator->();
+                ret.push_back(p ? *p : NULLV);
             } else if (op == "value") {
                 if constexpr (requires { v.value(); }) { ret.push_back(v.value()); } else { ok = false; }
             } else if (op == "write_through") {
@@ -921,10 +929,13 @@ struct Runner {
                     a0 = vo(t);
                     return vo(t) == 1 ? R(lib::unexpect, arg<E>(7)) : R(lib::in_place, vo(t) + 10);
                 };
-                if constexpr (requires { v.and_then(F); }) {
+                if constexpr (requires { v.and_then(F); std::as_const(v).and_then(F); }) {
                     Guard g(*this);
                     auto rr = v.and_then(F);
                     ret     = json::array({rr.has_value() ? 0 : 1, rr.has_value() ? *rr : vo(rr.error()), calls, a0});
+                    calls = a0 = 0;
+                    auto rc = std::as_const(v).and_then(F); // const& overload
+                    for (int e : {rc.has_value() ? 0 : 1, rc.has_value() ? *rc : vo(rc.error()), calls, a0}) { ret.push_back(e); }
                 } else { ok = false; }
             } else if (op == "or_else") {
                 int calls = 0, a0 = 0;
@@ -934,10 +945,13 @@ struct Runner {
                     a0 = vo(e);
                     return vo(e) == 1 ? R(lib::unexpect, 8) : R(lib::in_place, arg<T>(1));
                 };
-                if constexpr (requires { v.or_else(G); }) {
+                if constexpr (requires { v.or_else(G); std::as_const(v).or_else(G); }) {
                     Guard g(*this);
                     auto rr = v.or_else(G);
                     ret     = json::array({rr.has_value() ? 0 : 1, rr.has_value() ? vo(*rr) : rr.error(), calls, a0});
+                    calls = a0 = 0;
+                    auto rc = std::as_const(v).or_else(G); // const& overload
+                    for (int e : {rc.has_value() ? 0 : 1, rc.has_value() ? vo(*rc) : rc.error(), calls, a0}) { ret.push_back(e); }
                 } else { ok = false; }
             } else if (op == "transform") {
                 int calls = 0, a0 = 0;
@@ -968,7 +982,8 @@ struct Runner {
                 ret.push_back(vo(*v));
             } else if (op == "arrow") {
                 Guard g(*this);
-                ret.push_back(vo(*v.operator->()));
+                auto* p = v.operator->();
+                ret.push_back(p ? vo(*p) : NULLV);
             } else if (op == "value") {
                 if constexpr (requires { v.value(); }) {
                     Guard g(*this);
@@ -998,6 +1013,19 @@ struct Runner {
                         ret = flags6(std::as_const(v), sv, why);
                     }
                 });
+            } else if (op == "unex") {
+                // lib::unexpected<E> on its own: error(), ==, swap
+                using U = lib::unexpected<E>;
+                U u1(mk<E>(xv)), u2(mk<E>(xd));
+                Guard g(*this);
+                g.ext(u1.error());
+                g.ext(u2.error());
+                ret.push_back(vo(std::as_const(u1).error()));
+                ret.push_back((u1 == u2) ? 1 : 0);
+                using lib::swap;
+                swap(u1, u2);
+                ret.push_back(vo(u1.error()));
+                ret.push_back(vo(u2.error()));
             } else if (op == "cmp_unexpected") {
                 why = op + ":" + xt;
                 with_type(xt, [&](auto tt) {
@@ -1078,6 +1106,21 @@ struct Runner {
         ev["o"]    = o;
         ev["x"]    = x;
         ev["pre"]  = state();
+        // Never make a call whose precondition does not hold in the *actual* state (undefined behaviour).
+        // That only happens when an earlier call of this script deviated (already recorded in its own
+        // event): the rest of the script no longer means what the model planned, so it is dropped.
+        {
+            int idx      = ev["pre"][o]["idx"].get<int>();
+            bool engaged = kind == Kind::expected ? idx == 0 : idx == 1;
+            bool need_e  = op == "deref" || op == "arrow" || op == "value" || op == "deref_mv" || op == "write_through";
+            bool need_n  = op == "error" || op == "error_mv";
+            if (kind != Kind::variant && ((need_e && !engaged) || (need_n && engaged))) {
+                ++ndiverged;
+                broken = true;
+                std::fprintf(stderr, "DIVERGED %s %s\n", inst.c_str(), op.c_str());
+                return;
+            }
+        }
         json ret;
         life_used = false;
         bool ok   = apply(op, oi(o), x, ret);
